@@ -344,8 +344,9 @@ def run(ctx):
     # consensus mode (accepted by full validation, which skips them; every helper must skip them too), once more with
     # COST_CONDITIONS, and once under NO_UNKNOWN_CONDS (full validation rejects; helpers stay total)
     ur = rng.fork("unknown-ops")
-    for name in sorted(unknown_conds(ur)):
-        for pos in ("before", "between", "after", "all"):
+    for ui, name in enumerate(sorted(unknown_conds(ur))):
+        # quick tier: "all" for every shape plus one rotating single position; full tier: every position
+        for pos in ((("before", "between", "after")[(ui + ctx["seed"]) % 3], "all") if tier == "quick" else ("before", "between", "after", "all")):
             u = unknown_conds(ur)[name]
             cc1 = to_list([b"\x33", ur.bytes(32), canon(400), to_list([ur.bytes(32)])])
             cc2 = to_list([b"\x33", ur.bytes(32), canon(500)])
